@@ -238,6 +238,9 @@ def run(ctx):
         ctx.check(sorted(map(repr, probes)) == sorted(map(repr, exp)) and sem, "R14-query", q.key, q,
                   "query is true iff has_in_bucket(i1,f) or has_in_bucket(i2,f) of start(obj)",
                   "query does not test exactly the two candidate buckets: %s" % [(fmt(a), fmt(b)) for a, b in probes])
+    # a failed insert/union must leave the multiset untouched (C12's restore rules on the cuckoo filter)
+    from .C12 import run_restore_rules
+    run_restore_rules(ctx, only_adt=CF, floor=2)
     for nm in ("len", "is_empty"):
         f = ctx.anchor("<filters::cuckoofilter::CuckooFilter as filters::Filter[T]>::%s" % nm)
         if f is None:
